@@ -53,6 +53,10 @@ def generated_items(seed, tier, bias, scale=1.0):
                 e = f"({e} {rng.choice(gen.BINOPS)} {rng.choice([r, r, 'RtV', '3'])})"
             items.append(dict(name=f"reuse{i}", text=f"{{ int32_t q = {r}; RddV = {e} + q + q; if ({r} > q) {{ ReV = q + {r}; }} }}"))
     if bias == "sorts":
+        for name, text in rng.sample(gen.chained_assignments(rng, False), 40 if tier == "quick" else 200):
+            items.append(dict(name="chain:" + name, text=text))
+        for k, text in enumerate(["{ RddV = ReV = RsV; }", "{ int64_t a; int32_t b; a = b = RsV; RddV = a; }", "{ ReV = PdV = RsV; }", "{ int8_t a; uint64_t b; RyyV = b = a = RsV; }"]):
+            items.append(dict(name=f"chainreg{k}", text=text))
         for i in range(60 if tier == "quick" else 600):
             t = rng.choice(gen.TYPES)
             op = rng.choice(["+=", "-=", "*=", "&=", "|=", "^=", "<<=", ">>="])
